@@ -276,6 +276,10 @@ func (r *FeatureLocal) SetWriteApprovalTimeout(duration time.Duration) {
 }
 
 func (r *FeatureLocal) CleanWriteApprovalCaches(ski string) {
+	// the received approvals are protected by muxWriteReceived, lock it first as ApproveOrDenyWrite does
+	r.muxWriteReceived.Lock()
+	defer r.muxWriteReceived.Unlock()
+
 	r.muxResponseCB.Lock()
 	defer r.muxResponseCB.Unlock()
 
@@ -534,7 +538,11 @@ func (r *FeatureLocal) RemoveRemoteSubscription(remoteAddress *model.FeatureAddr
 
 // Remove all subscriptions to remote features
 func (r *FeatureLocal) RemoveAllRemoteSubscriptions() {
-	for _, item := range r.subscriptions {
+	r.mux.Lock()
+	subscriptions := append([]*model.FeatureAddressType(nil), r.subscriptions...)
+	r.mux.Unlock()
+
+	for _, item := range subscriptions {
 		_, _ = r.RemoveRemoteSubscription(item)
 	}
 }
@@ -614,7 +622,11 @@ func (r *FeatureLocal) RemoveRemoteBinding(remoteAddress *model.FeatureAddressTy
 
 // Remove all subscriptions to remote features
 func (r *FeatureLocal) RemoveAllRemoteBindings() {
-	for _, item := range r.bindings {
+	r.mux.Lock()
+	bindings := append([]*model.FeatureAddressType(nil), r.bindings...)
+	r.mux.Unlock()
+
+	for _, item := range bindings {
 		_, _ = r.RemoveRemoteBinding(item)
 	}
 }
